@@ -155,7 +155,8 @@ OPS_SUFFIXED = [("lda", "dir", "w"), ("lda", "dir", "l"), ("sta", "dir", "w"), (
 OPS_BYTE = [("lda", "dir", "b"), ("sta", "dirx", "b"), ("lda", "indy", "b"), ("lda", "lng", "b"), ("eor", "indxi", "b"),
             ("rep", "imm", "b"), ("ldy", "imm", "b"), ("lda", "dirs", "b"), ("sta", "lngy", "b"), ("lda", "indsy", "b")]
 OPS_IMP = ["nop", "inx", "dey", "pha", "plb", "rts", "rtl", "xba", "asl", "clc"]
-OPS_INFER = [("lda", "dir"), ("sta", "dir"), ("lda", "dirx"), ("adc", "dir"), ("lda", "imm"), ("cmp", "dir")]
+OPS_INFER = [("lda", "dir"), ("sta", "dir"), ("lda", "dirx"), ("adc", "dir"), ("lda", "imm"), ("cmp", "dir"),
+             ("jmp", "ind"), ("jmp", "lng"), ("jsr", "dir"), ("lda", "ind"), ("lda", "indy")]
 BRANCHES = ["bra", "beq", "bne", "bcc", "bcs", "bmi", "bpl"]
 
 
@@ -240,7 +241,8 @@ class Gen:
                 out.append({"k": "op", "mn": r.choice(OPS_IMP), "shape": "imp", "sfx": "", "e": num(0)})
             elif x < 0.60:
                 mn, sh = r.choice(OPS_INFER)
-                out.append({"k": "op", "mn": mn, "shape": sh, "sfx": "", "e": self.hole("t1imm" if sh == "imm" else "t1")})
+                ctx_ = "t1imm" if sh == "imm" else ("t1w" if mn in ("jmp", "jsr") else ("lit8" if sh in ("ind", "indy") else "t1"))
+                out.append({"k": "op", "mn": mn, "shape": sh, "sfx": "", "e": self.hole(ctx_)})
             elif x < 0.65:
                 out.append({"k": "sym", "n": self.fresh("s"), "e": self.hole("t2")})
             elif x < 0.70:
@@ -354,6 +356,8 @@ class Gen:
         def pick(ctx):
             if ctx == "lit8":
                 return num(r.choice([0, 1, 0x10, 0x7F, 0x80, 0xFF]))
+            if ctx == "t1w":
+                return num(r.choice([0x100, 0x1234, 0x8000, 0xFFFF]))
             if ctx in ("t1", "t1imm"):
                 cands = [c for c in seen_consts if c in self.consts]
                 if cands and r.random() < 0.6:
